@@ -79,11 +79,16 @@ def deviations():
         sp["lanelets"][2].setdefault("lights", []).append(12)
         sp["lanelets"][2]["stop_line"]["light_ref"] = [12]
 
+    def stopline_light_subset(sp):
+        # stop lines that refer to a strict subset of the lights of their lanelet (2: one of two; 4: none of one)
+        sp["lanelets"][1]["lights"] = [12, 13]
+        sp["lanelets"][3]["stop_line"] = {"start": [9.0, 3.0], "end": [9.0, 6.0], "marking": "SOLID", "sign_ref": [], "light_ref": []}
+
     def two_incoming_lanelets(sp):
         sp["intersections"][0]["incomings"][0]["lanelets"] = [1, 2]
         sp["intersections"][0]["incomings"][0]["left"] = [4]
     return [("diamond", diamond), ("sixth-lanelet", sixth), ("adjacency-flip", adj_flip), ("sign-on-all", sign_all), ("second-intersection", second_intersection),
-            ("light-shared", light_shared), ("incoming-two-lanelets", two_incoming_lanelets)]
+            ("light-shared", light_shared), ("incoming-two-lanelets", two_incoming_lanelets), ("stopline-light-subset", stopline_light_subset)]
 
 
 def variant(names):
